@@ -4,9 +4,11 @@
 import Rtcp.Spec.All
 import Rtcp.Proofs.ReadLemmas
 import Rtcp.Proofs.ParsersFraming
+import Rtcp.Proofs.ParsersAccessorsAux
 
 namespace Rtcp.Proofs
 open Rtcp Rtcp.Impl Rtcp.Spec
+open Rtcp.Proofs.Read Rtcp.Proofs.Acc
 
 /-! ## accessors: exactly the bytes on the wire, never a panic on an accepted view (C09, C01) -/
 
@@ -20,7 +22,13 @@ theorem sr_accessors {ε : Type} (bs : Bytes) (h : Sr.parse bs = .ok bs) :
     (Sr.padding bs : R ε (Option UInt8)) = .ok (paddingOf bs) ∧
     (Sr.reportBlocks bs : R ε (List Bytes)) =
       .ok ((List.range (count bs)).map (fun i => range bs (28 + 24 * i) (28 + 24 * i + 24))) := by
-  sorry
+  obtain ⟨-, hw, hc⟩ := (sr_parse_ok_iff bs bs).mp h
+  obtain ⟨hm, h4, -, -, hl, -⟩ := (wellFramed_iff 28 200 bs).mp hw
+  refine ⟨parseSsrc_ok bs (by omega), ?_, read32 bs 16 20 rfl (by omega), read32 bs 20 24 rfl (by omega),
+    read32 bs 24 28 rfl (by omega), hCount_ok bs h4, parsePadding_ok bs h4 hl,
+    reportBlocksAt_ok 28 bs h4 hc⟩
+  simp only [Sr.ntp, slice_ok bs 8 16 ⟨by omega, by omega⟩, R.ok_bind]
+  exact fromBe64_range bs 8 (by omega)
 
 theorem rr_accessors {ε : Type} (bs : Bytes) (h : Rr.parse bs = .ok bs) :
     (Rr.ssrc bs : R ε UInt32) = .ok (u32At bs 4).toUInt32 ∧
@@ -28,7 +36,10 @@ theorem rr_accessors {ε : Type} (bs : Bytes) (h : Rr.parse bs = .ok bs) :
     (Rr.padding bs : R ε (Option UInt8)) = .ok (paddingOf bs) ∧
     (Rr.reportBlocks bs : R ε (List Bytes)) =
       .ok ((List.range (count bs)).map (fun i => range bs (8 + 24 * i) (8 + 24 * i + 24))) := by
-  sorry
+  obtain ⟨-, hw, hc⟩ := (rr_parse_ok_iff bs bs).mp h
+  obtain ⟨hm, h4, -, -, hl, -⟩ := (wellFramed_iff 8 201 bs).mp hw
+  exact ⟨parseSsrc_ok bs (by omega), hCount_ok bs h4, parsePadding_ok bs h4 hl,
+    reportBlocksAt_ok 8 bs h4 hc⟩
 
 theorem rb_accessors {ε : Type} (bs : Bytes) (h : bs.length = 24) :
     (ReportBlock.ssrc bs : R ε UInt32) = .ok (u32At bs 0).toUInt32 ∧
@@ -38,7 +49,16 @@ theorem rb_accessors {ε : Type} (bs : Bytes) (h : bs.length = 24) :
     (ReportBlock.interarrivalJitter bs : R ε UInt32) = .ok (u32At bs 12).toUInt32 ∧
     (ReportBlock.lastSenderReportTimestamp bs : R ε UInt32) = .ok (u32At bs 16).toUInt32 ∧
     (ReportBlock.delaySinceLastSenderReportTimestamp bs : R ε UInt32) = .ok (u32At bs 20).toUInt32 := by
-  sorry
+  refine ⟨read32 bs 0 4 rfl (by omega), ?_, ?_, read32 bs 8 12 rfl (by omega),
+    read32 bs 12 16 rfl (by omega), read32 bs 16 20 rfl (by omega), read32 bs 20 24 rfl (by omega)⟩
+  · simp only [ReportBlock.fractionLost, idx_ok bs 4 (by omega), u8At, toNat_toUInt8]
+  · have h32 : u32At bs 4 < 4294967296 := by
+      have := u16At_lt bs 4; have := u16At_lt bs (4 + 2); unfold u32At; omega
+    have e : (u32At bs 4).toUInt32.toNat = u32At bs 4 := by
+      simp only [Nat.toUInt32, UInt32.toNat_ofNat']
+      omega
+    simp only [ReportBlock.cumulativeLost, slice_ok bs 4 8 ⟨by omega, by omega⟩, R.ok_bind,
+      fromBe32_range bs 4 (by omega), R.pure_eq, e]
 
 theorem app_accessors {ε : Type} (bs : Bytes) (h : App.parse bs = .ok bs) :
     (App.ssrc bs : R ε UInt32) = .ok (u32At bs 4).toUInt32 ∧
@@ -46,7 +66,13 @@ theorem app_accessors {ε : Type} (bs : Bytes) (h : App.parse bs = .ok bs) :
     (App.padding bs : R ε (Option UInt8)) = .ok (paddingOf bs) ∧
     (App.data bs : R ε Slice) = .ok ⟨12, range bs 12 (bs.length - padLen bs)⟩ ∧
     12 ≤ bs.length - padLen bs := by
-  sorry
+  obtain ⟨-, hw, hc⟩ := (app_parse_ok_iff bs bs).mp h
+  obtain ⟨hm, h4, -, -, hl, -⟩ := (wellFramed_iff 12 204 bs).mp hw
+  refine ⟨parseSsrc_ok bs (by omega), slice_ok bs 8 12 ⟨by omega, by omega⟩, parsePadding_ok bs h4 hl,
+    ?_, by omega⟩
+  have hp : ((paddingOf bs).getD 0).toNat = padLen bs := rfl
+  simp only [App.data, parsePadding_ok bs h4 hl, R.ok_bind, hp, usub_ok bs.length (padLen bs) (by omega)]
+  rw [sliceS_ok 0 bs 12 _ ⟨by omega, by omega⟩]
 
 theorem bye_accessors {ε : Type} (bs : Bytes) (h : Bye.parse bs = .ok bs) :
     (Bye.ssrcs bs : R ε (List UInt32)) = .ok ((List.range (count bs)).map (fun i => (u32At bs (4 + 4 * i)).toUInt32)) ∧
@@ -56,22 +82,77 @@ theorem bye_accessors {ε : Type} (bs : Bytes) (h : Bye.parse bs = .ok bs) :
        .ok (if bs.length ≤ off + 1 + padLen bs then none
             else some ⟨off + 1, range bs (off + 1) (off + 1 + u8At bs off)⟩)) ∧
     (4 + 4 * count bs < bs.length → 4 + 4 * count bs + 1 + u8At bs (4 + 4 * count bs) ≤ bs.length) := by
-  sorry
+  obtain ⟨-, hw, hc, hr⟩ := (bye_parse_ok_iff bs bs).mp h
+  obtain ⟨hm, h4, -, -, hl, -⟩ := (wellFramed_iff 4 203 bs).mp hw
+  refine ⟨?_, parsePadding_ok bs h4 hl, ?_, hr⟩
+  · simp only [Bye.ssrcs, hCount_ok bs h4, R.ok_bind, count_toUInt8_toNat]
+    rw [slice_ok bs 4 _ ⟨by omega, by omega⟩]
+    simp only [R.ok_bind]
+    rw [chunksExact_range 4 (by omega) bs (count bs) 4 (by omega)]
+    apply mapM_map_ok
+    intro i hi
+    have hi : i < count bs := by simpa using hi
+    exact fromBe32_range bs (4 + 4 * i) (by omega)
+  · have hp : ((paddingOf bs).getD 0).toNat = padLen bs := rfl
+    have ho : count bs * 4 + 4 = 4 + 4 * count bs := by omega
+    simp only [Bye.reason, hCount_ok bs h4, R.ok_bind, count_toUInt8_toNat, hLength_ok bs h4, hl,
+      parsePadding_ok bs h4 hl, hp, ho]
+    by_cases hlt : bs.length ≤ 4 + 4 * count bs + 1 + padLen bs
+    · rw [if_pos hlt]
+      by_cases h1 : bs.length < 4 + 4 * count bs + 1 + padLen bs
+      · rw [if_pos h1]; rfl
+      · rw [if_neg h1, if_pos (by omega)]; rfl
+    · rw [if_neg hlt, if_neg (by omega), if_neg (by omega)]
+      have hr' := hr (by omega)
+      rw [idx_ok bs _ (by omega)]
+      simp only [R.ok_bind]
+      rw [sliceS_ok 0 bs _ _ ⟨by omega, by unfold u8At at hr'; omega⟩]
+      simp [u8At]
 
 theorem fb_accessors {ε : Type} (k : FbKind) (bs : Bytes) (h : Fb.parse k bs = .ok bs) :
     (Fb.senderSsrc bs : R ε UInt32) = .ok (u32At bs 4).toUInt32 ∧
     (Fb.mediaSsrc bs : R ε UInt32) = .ok (u32At bs 8).toUInt32 ∧
     (Fb.padding bs : R ε (Option UInt8)) = .ok (paddingOf bs) := by
-  sorry
+  obtain ⟨-, hw, hc⟩ := (fb_parse_ok_iff k bs bs).mp h
+  obtain ⟨hm, h4, -, -, hl, -⟩ := (wellFramed_iff 12 k.pt bs).mp hw
+  refine ⟨parseSsrc_ok bs (by omega), ?_, parsePadding_ok bs h4 hl⟩
+  have hs : (sliceFrom bs 4 : R ε Bytes) = .ok (bs.drop 4) := by simp [sliceFrom]; omega
+  simp only [Fb.mediaSsrc, hs, R.ok_bind]
+  rw [parseSsrc_ok _ (by simp; omega), u32At_drop]
 
 theorem unknown_accessors {ε : Type} (bs : Bytes) :
     (Unknown.data bs : R ε Slice) = .ok ⟨0, bs⟩ := by
-  sorry
+  simp only [Unknown.data]
+  rw [sliceS_ok 0 bs 0 _ ⟨by omega, by omega⟩]
+  simp [range]
 
 theorem slices_within (bs : Bytes) :
     (∀ s, (App.data bs : R Unit Slice) = .ok s → SubSlice s bs) ∧
     (∀ s, (Bye.reason bs : R Unit (Option Slice)) = .ok (some s) → SubSlice s bs) ∧
     (∀ s, (Unknown.data bs : R Unit Slice) = .ok s → SubSlice s bs) := by
-  sorry
+  refine ⟨?_, ?_, ?_⟩
+  · intro s hs
+    unfold App.data at hs
+    obtain ⟨p, -, hs⟩ := bind_eq_ok _ _ _ hs
+    obtain ⟨e, -, hs⟩ := bind_eq_ok _ _ _ hs
+    exact sliceS_subSlice _ _ _ _ hs
+  · intro s hs
+    unfold Bye.reason at hs
+    obtain ⟨c, -, hs⟩ := bind_eq_ok _ _ _ hs
+    obtain ⟨len, -, hs⟩ := bind_eq_ok _ _ _ hs
+    obtain ⟨p, -, hs⟩ := bind_eq_ok _ _ _ hs
+    dsimp only at hs
+    split at hs
+    · cases hs
+    · split at hs
+      · cases hs
+      · obtain ⟨rl, -, hs⟩ := bind_eq_ok _ _ _ hs
+        obtain ⟨s', hs', hs⟩ := bind_eq_ok _ _ _ hs
+        injection hs with hs
+        injection hs with hs
+        subst hs
+        exact sliceS_subSlice _ _ _ _ hs'
+  · intro s hs
+    exact sliceS_subSlice _ _ _ _ hs
 
 end Rtcp.Proofs
